@@ -17,19 +17,24 @@ type memberOp struct {
 // every backend exactly one; any n*k consecutive requests give every backend exactly k.
 func TestC05RRWindow(t *testing.T) {
 	sub := lab.Sub("rr-window", "rapid: pool size 1..8 (reached directly or through a drawn add/remove history), drawn rotation offset (0..3n+2 warm-up requests), "+
-		"window of n*k (k 1..5) consecutive requests through lb.NextBackend or lb.ServeHTTP(L1); oracle: every n consecutive requests of the window hit each "+
+		"window of n*k (k 1..5) consecutive requests through lb.NextBackend or lb.ServeHTTP(L1); in 2/3 of the cases admin/monitoring calls (admin mux /v1/health,/v1/backends,/v1/metrics, "+
+		"MetricsHandler, HealthHandler, ListBackends, IsBackendHealthy, GetMetrics) are interleaved with the window's requests and/or the backends carry in-flight counts from "+
+		"{0,1,99,100,101,500} (IncrementConnections) plus 0..2 really parked requests - neither may change the distribution; oracle: every n consecutive requests of the window hit each "+
 		"backend exactly once and the n*k requests hit each exactly k times; non-trivial = n>=2 and (offset not a multiple of n, or a non-empty membership history)")
 	sub.NontrivialFloor(0.45)
 	sub.Floor("via-serve", 0.2)
 	sub.Floor("via-next", 0.2)
 	sub.Floor("history", 0.2)
+	sub.Floor("observers-interleaved", 0.4)
+	sub.Floor("inflight-99plus", 0.3)
+	sub.Floor("parked-requests", 0.2)
 	lab.Check(t, sub, 2000, 40000, func(rt *rapid.T) {
 		n0 := rapid.IntRange(1, 8).Draw(rt, "n0")
 		p, err := newPool("round_robin", lab.Ones(n0))
 		if err != nil {
 			rt.Fatalf("harness: %v", err)
 		}
-		defer p.lb.Stop()
+		defer p.close()
 		var hist []memberOp
 		if rapid.IntRange(0, 2).Draw(rt, "withHistory") == 0 {
 			nops := rapid.IntRange(1, 8).Draw(rt, "nops")
@@ -55,22 +60,25 @@ func TestC05RRWindow(t *testing.T) {
 		offset := rapid.IntRange(0, 3*n+2).Draw(rt, "offset")
 		k := rapid.IntRange(1, 5).Draw(rt, "k")
 		via := rapid.SampledFrom([]string{"next", "serve"}).Draw(rt, "via")
-		for i := 0; i < offset; i++ {
+		load := drawLoad(rt, n, true)
+		obs := drawObs(rt)
+		offset += p.applyLoad(load) // parked requests take turns of the rotation like any request
+		for i := 0; i < offset-load.Parked; i++ {
 			p.pick(via)
 		}
 		seq := make([]string, 0, n*k)
 		for i := 0; i < n*k; i++ {
-			name, _ := p.pick(via)
+			name, _ := p.windowPick(via, obs, i)
 			seq = append(seq, name)
 		}
-		labels := []string{fmt.Sprintf("n%d", n), "via-" + via}
+		labels := append([]string{fmt.Sprintf("n%d", n), "via-" + via}, planLabels(load, obs)...)
 		if len(hist) > 0 {
 			labels = append(labels, "history")
 		}
 		if offset%n != 0 {
 			labels = append(labels, "offset-nonzero")
 		}
-		sub.Case(map[string]any{"n0": n0, "history": hist, "offset": offset, "k": k, "via": via},
+		sub.Case(map[string]any{"n0": n0, "history": hist, "offset": offset, "k": k, "via": via, "inflight": load, "observers": obs},
 			n >= 2 && (offset%n != 0 || len(hist) > 0), labels...)
 		one := map[string]int{}
 		kk := map[string]int{}
